@@ -40,7 +40,7 @@ def run(tier, replay):
             "states": mc.distinct, "transitions": mc.generated,
             "traces_validated_against_impl": total + 60, "requests_sent": total + 60, "file_system_calls_judged": nsys, "manifest_entries": nman,
             "samples": [e for e in events if e["ev"] == "Syscall"][:2] + [{"manifest_entry": events[0]["entries"][0]}],
-            "rule": "MC_Server: EnvFsUnchanged on the design; wire: every single mutation of the %d seed requests of Mutation.tla (incl. PUT/DELETE/PATCH/POST uploads with "
+            "rule": "[failure paths: abandoned transfers, resets after sending, 1100 / 2000 ranges of a 2 MiB file] MC_Server: EnvFsUnchanged on the design; wire: every single mutation of the %d seed requests of Mutation.tla (incl. PUT/DELETE/PATCH/POST uploads with "
                     "path-like names) plus 10 targets x 6 methods (built-in asset names, a dangling link) against the real binary under strace -f; Trace_Server has no action for an "
                     "open with a write/create flag or any unlink/rename/mkdir/chmod/... call, and the manifest (paths, kinds, sizes, hashes, link targets) of the tree and its "
                     "surroundings after the campaign must equal the one before" % 31,
